@@ -1,9 +1,9 @@
-\* C18 / Reloc.tla -- (G) every complete session (one load bias per object: the loader's choice is not
+\* C18 / Reloc.tla -- (G, quick tier 2/2) every complete session whose first request is a line anchor in the executable and whose second goes to the library / stage_reopened at any prompt (one load bias per object: the loader's choice is not
 \* controllable in the replay) printed as JSON with the REFERENCE's expectations at every prompt
 CONSTANTS
     ExeModes = {"pie", "nopie"}
     LibModes = {"startup", "dlopen"}
-    SessModes = {"attach_pre", "attach_mid"}
+    SessModes = {"launch"}
     LibBiases = {300}
     LibBases = {0, 60}
     Kinds = {"fn", "line", "addr"}
@@ -12,7 +12,7 @@ CONSTANTS
     ReloadRule = "rearm"
     EarlyAddrRule = "defer"
     AttachRule = "rbrk"
-    ReqPlan = "free"
+    ReqPlan = "anchor"
     Emit = "scn"
 SPECIFICATION Spec
 INVARIANTS RefSane InstalledAtTrueAddress ActiveWhenMapped SharedLibsAreMapped StopsWhereRequested NeverLost
